@@ -888,6 +888,9 @@ class TrueDiv(Contract):
             d["S.quot"] = fmul(ya, ra) == xa
         else:
             d["S.quot"] = Implies(on(c), fmul(ya, ra) == xa)
+            # a quotient is only ever handed out for a non-zero divisor (0 * q = 0 would determine nothing): whatever
+            # the error mode, a call with a zero divisor does not return
+            d["S.divisor_nonzero_on_return"] = Implies(And(c.tied(y), canon(c, c.v(y))), ya != 0)
             d["S.unique"] = Implies(And(on(c), _tied(c, x, y), exact, ya != 0), ra == c.v(r) % c.p)
             d["canary.S.unique"] = Implies(And(on(c), _tied(c, x, y), exact, ya != 0), ra == (c.v(r) + 1) % c.p)
         return d
@@ -1412,13 +1415,17 @@ class RDivMod(_Reflected):
 class EnsureLc(Contract):
     """LinComb._ensurelc(v): a LinComb is passed through; an int becomes the constant v (times the guard inside a guarded region)"""
     name = "pysnark.runtime:LinComb._ensurelc"
+    # C08: "the meaning of constants ... exactly what it was before the region": this is where a plain constant gets
+    # its meaning (ONE * v with the CURRENT LinComb.ONE), so it must not remember anything from an earlier region
+    vprops = ("C05", "C08")
+    fprops = ("C08",)
 
     def configs(self, tier):
-        return [dict(mode=m, kind=k) for m in ("plain", "g1", "g0") for k in ("s", "k")]
+        return [dict(mode=m, kind=k) for m in ("plain", "g1", "g0") for k in ("s", "k", "five")]
 
     def setup(self, c, cfg):
         apply_mode(c, cfg["mode"])
-        v = c.operand("x") if cfg["kind"] == "s" else c.public_int("k")
+        v = c.operand("x") if cfg["kind"] == "s" else (c.public_int("k") if cfg["kind"] == "k" else 5)
         return c.LinComb._ensurelc, (v,), {}
 
     def use_stub(self, c, *a):
@@ -1650,3 +1657,41 @@ for _owner, _m, _exc in (("LinComb", "__bool__", NotImplementedError), ("LinComb
     register(type("NoPlain_%s_%s" % (_owner, _m.strip("_")), (_NoPlain,),
                   dict(name="%s:%s.%s" % (_mod, _owner, _m), owner=_owner, method=_m, must_raise=_exc,
                        __doc__="%s.%s: a secret is never converted to a plain value" % (_owner, _m))))
+
+
+# ---------------------------------------------------------------------------
+# formatting a secret (print / str / repr / %s in debug output) is pure: a string, no event, nothing made public
+# ---------------------------------------------------------------------------
+
+class _Repr(Contract):
+    facets = "VRTNK"
+    vprops = ("C05", "C17")
+    tprops = ("C06", "C17")
+    sprops = eprops = cprops = ()
+    guard_relevant = False
+    owner = "LinComb"
+    modules = ("pysnark.runtime", "pysnark.boolean", "pysnark.fixedpoint", "pysnark.branching")
+
+    def configs(self, tier):
+        return [dict(mode=m) for m in ("plain", "g0")]
+
+    def setup(self, c, cfg):
+        apply_mode(c, cfg["mode"])
+        c.w.modules["pysnark.fixedpoint"].resolution = 3
+        o = {"LinComb": lambda: c.operand("x"), "LinCombBool": lambda: c.operand_bool("x"),
+             "LinCombFxp": lambda: c.mk_fxp(c.operand("x"))}[self.owner]()
+        return getattr(getattr(c, self.owner), "__repr__"), (o,), {}
+
+    def use_stub(self, c, *a, **k):
+        return False
+
+    def post(self, c, r, x):
+        return {"V.is_text": isinstance(r, str)}
+
+    def counts(self, c, x):
+        return (0, 0, 0)
+
+
+for _owner, _mod in (("LinComb", "pysnark.runtime"), ("LinCombBool", "pysnark.boolean"), ("LinCombFxp", "pysnark.fixedpoint")):
+    register(type("Repr_" + _owner, (_Repr,), dict(name="%s:%s.__repr__" % (_mod, _owner), owner=_owner,
+                                                   __doc__="%s.__repr__: text only, no event" % _owner)))
